@@ -57,8 +57,10 @@ type Op struct {
 type Case struct {
 	Name     string `json:"name"`
 	N        int    `json:"n"`
-	Limits   []int  `json:"limits"`    // routing.max_hops per node (0 = not set: flooder default)
-	UseAgent bool   `json:"use_agent"` // nodes are built by agent.New(config)
+	Limits   []int  `json:"limits"`             // routing.max_hops per node (0 = not set: flooder default)
+	UseAgent bool   `json:"use_agent"`          // nodes are built by agent.New(config)
+	MgmtKey  bool   `json:"mgmt_key,omitempty"` // agent mode: management.public_key is configured (sealed box present)
+	NoModel  bool   `json:"no_model,omitempty"` // judged by the monitors only (outside the assumptions of the model)
 	Ops      []Op   `json:"ops"`
 	Settle   bool   `json:"settle"` // informational: the schedule ends quiescent
 }
@@ -399,7 +401,7 @@ func (nt *Net) advObs(adv *protocol.RouteAdvertise) AdvObs {
 
 var scratchDir string
 
-func agentConfig(i, limit int) *config.Config {
+func agentConfig(i, limit int, mgmt bool) *config.Config {
 	cfg := config.Default()
 	cfg.Agent.ID = NodeID(i).String()
 	if scratchDir == "" {
@@ -414,6 +416,9 @@ func agentConfig(i, limit int) *config.Config {
 	cfg.Agent.LogLevel = "error"
 	if limit > 0 {
 		cfg.Routing.MaxHops = limit
+	}
+	if mgmt {
+		cfg.Management.PublicKey = strings.Repeat("5a", 32)
 	}
 	return cfg
 }
@@ -452,7 +457,7 @@ func newNet(c *Case) *Net {
 			limit = c.Limits[i]
 		}
 		if c.UseAgent {
-			cfg := agentConfig(i, limit)
+			cfg := agentConfig(i, limit, c.MgmtKey)
 			if err := cfg.Validate(); err != nil {
 				panic(fmt.Sprintf("config.Validate: %v", err))
 			}
